@@ -30,6 +30,7 @@ WINDOWS = {
     'thorough': (('1900-01-01', '1901-12-31'), ('1999-07-01', '2001-06-30'), ('2099-07-01', '2101-06-30')),
     'quick': (('1900-01-01', '1900-08-31'), ('1999-11-01', '2000-06-30'), ('2099-11-01', '2100-06-30')),
 }
+LEAP_STARTS = {'quick': (2000, 2021), 'thorough': (1900, 1904, 2000, 2021, 2096, 2100)}
 DELTA_YEARS = {'thorough': BOUNDARY_YEARS, 'quick': (1900, 2000, 2100)}
 DELTAS = {'thorough': tuple(range(0, 401)) + tuple(range(725, 736)),
           'quick': tuple(range(0, 63)) + tuple(range(360, 371)) + tuple(range(725, 736))}
@@ -389,6 +390,22 @@ class HostInstants(Sub):
                         if not eqnum(v, want):
                             out.append(fail('%s(xt) with the date-time xt = %s is not %d' % (fn, t.isoformat(), want), want,
                                             show(v, b)))
+            if m % 15 == 0:
+                # one instant spelled by the host in three zones: each spelling reads its own wall-clock fields
+                base = DT(d.year, d.month, d.day, h, m, 0, tzinfo=datetime.timezone.utc)
+                for off in (0, 330, -570, 840):
+                    try:
+                        t = base.astimezone(datetime.timezone(datetime.timedelta(minutes=off)))
+                    except OverflowError:
+                        continue
+                    if (t.year, t.month) < (1900, 3):
+                        continue
+                    env.note('aware')
+                    for fn, want in (('HOUR', t.hour), ('MINUTE', t.minute), ('DAY', t.day), ('MONTH', t.month)):
+                        v, b = val(env, fn + '(xt)', {'xt': t})
+                        if not eqnum(v, want):
+                            out.append(fail('%s(xt) with the zone-aware date-time xt = %s is not %d (its own wall-clock reading)' % (
+                                fn, t.isoformat(), want), want, show(v, b)))
             if len(out) > 20:
                 break
         return out
@@ -610,8 +627,10 @@ def check_pair(env, a, b, out, literal=False):
         if not any(near_num(v, w) for w in ref['d']):
             bad('DAYS(xe,xd) with end xe = %s, start xd = %s is not the calendar difference %s'
                 % (b, a, sorted(ref['d'])), sorted(ref['d']), v, bb)
+        got = {}
         for u in UNITS:
             v, bb = val(env, 'DATEDIF(xd,xe,xu)', {'xd': at, 'xe': bt, 'xu': u})
+            got[u] = v
             ok = any(near_num(v, w) for w in ref[u]) if u == 'd' else any(eqnum(v, w) for w in ref[u])
             if not ok:
                 bad('DATEDIF(xd,xe,"%s") with start xd = %s, end xe = %s is not %s' % (u, a, b, sorted(ref[u])),
@@ -622,6 +641,10 @@ def check_pair(env, a, b, out, literal=False):
                 ok = any(near_num(v, w) for w in ref[u]) if u == 'd' else any(eqnum(v, w) for w in ref[u])
                 if not ok:
                     bad('%s is not %s' % (f, sorted(ref[u])), sorted(ref[u]), v, bb)
+        if all(isnum(got[u]) for u in ('m', 'y', 'ym')) and got['m'] != 12 * got['y'] + got['ym']:
+            # whichever way a month that ends on a shorter month's last day is counted, the three units count it the same way
+            bad('DATEDIF with start %s, end %s: "m" = %r but 12 * "y" + "ym" = 12 * %r + %r' % (a, b, got['m'], got['y'], got['ym']),
+                12 * got['y'] + got['ym'], got['m'], None)
         if literal:
             f = 'DAYS(%s,%s)' % (dlit(b), dlit(a))
             v, bb = val(env, f)
@@ -656,6 +679,13 @@ class Pairs(Sub):
 
     def cases(self, tier, unit):
         wi, q = unit
+        if wi == 0 and q == 0:
+            # month ends against month ends over one to four years and over a century: start days 27..31 of every month of a leap and
+            # of a common year against the last three days and the first day of every later month
+            for ys in LEAP_STARTS[tier]:
+                for ms in range(1, 13):
+                    for ds in range(27, month_len(ys, ms) + 1):
+                        yield ['ends', D(ys, ms, ds).isoformat()]
         lo, hi = WINDOWS[tier][wi]
         for i, o in enumerate(range(D.fromisoformat(lo).toordinal(), D.fromisoformat(hi).toordinal() + 1)):
             if i % 4 == q:
@@ -666,6 +696,19 @@ class Pairs(Sub):
         if case[0] == 'one':
             a, b = D.fromisoformat(case[1]), D.fromisoformat(case[2])
             check_pair(env, a, b, out, literal=self.literal(a, b))
+            return out
+        if case[0] == 'ends':
+            a = D.fromisoformat(case[1])
+            for k in list(range(0, 50)) + [96, 97, 1200, 1201, 1202]:
+                y, m = a.year + (a.month - 1 + k) // 12, (a.month - 1 + k) % 12 + 1
+                if y > 9999:
+                    continue
+                n = month_len(y, m)
+                for b in (D(y, m, n - 2), D(y, m, n - 1), D(y, m, n), D(y, m, 1)):
+                    if a <= b:
+                        check_pair(env, a, b, out)
+                if len(out) > 40:
+                    break
             return out
         _, tier, wi, start = case
         lo, hi = WINDOWS[tier][wi]
